@@ -83,6 +83,15 @@ pub fn check_scale(b: &[u8], class: &str, rep: &mut Report, case: &dyn Fn() -> s
                 }
             }
             check_resolve(&r, rep, &|| json!({"class": class, "input_hex": hex(b), "at": case()}));
+            // a consumer that compares what it decoded with a copy through the borrowing entry point (two encodings alive at once)
+            if consumed % 16 == 5 {
+                let copy = r.clone();
+                match guard(|| r.using_encoded(|x| copy.using_encoded(|y| x == y && x == &b[..consumed]))) {
+                    Ok(true) => rep.count("nested_using_encoded", 1),
+                    Ok(false) => rep.violation("C14/non-canonical-accepted", "accepted input: the decoded registry and its clone encode differently through nested using_encoded calls".into(), json!({"class": class, "input_hex": hex(b), "at": case()})),
+                    Err(p) => rep.violation("C14/panic", format!("re-encoding a decoded registry (nested using_encoded of the registry and its clone) panicked: {}", p), json!({"class": class, "input_hex": hex(b), "at": case()})),
+                }
+            }
         }
     }
 }
